@@ -148,7 +148,8 @@ Lemma dremove_ok q : DInv q ->
     end.
 Proof.
   intros HI. unfold dremove. destruct (dcnt q =? 0) eqn:E0.
-  - apply Nat.eqb_eq in E0. exists q, None. repeat split; auto; unfold dabs; apply abs_cnt0; auto.
+  - apply Nat.eqb_eq in E0. exists q, None. split; [reflexivity|]. split; [exact HI|].
+    split; [reflexivity|]. split; [reflexivity|]. split; unfold dabs; apply abs_cnt0; auto.
   - apply Nat.eqb_neq in E0. destruct (dclosed q) eqn:Ec.
     { destruct (DInv_closed q HI Ec) as (_ & ? & _). lia. }
     destruct (DInv_open q HI Ec) as (Hic & Hwf & (k & Hk) & Hs).
